@@ -476,11 +476,16 @@ class DerivedS1(S1):
         super().__init__(target, a, b)
 
 
+class DerivedS4(S4):
+    """a subclass of a controller class"""
+
+
 def subclass_templates(ctx):
     """templates of a class and of its subclass are independent, whichever is asked for first"""
     order = ctx.choice("first", 2)
     a = ctx.num("a", "int")
-    names = [S1, DerivedS1] if order == 0 else [DerivedS1, S1]
+    base, derived = [(S1, DerivedS1), (S4, DerivedS4)][ctx.choice("family", 2)]  # a decorator and a controller family
+    names = [base, derived] if order == 0 else [derived, base]
     bare = [c.s() for c in names]  # bare templates first (what a cache would remember)
     pool = RecPool()
     ctx.reach()
@@ -490,8 +495,8 @@ def subclass_templates(ctx):
         ctx.require(type(obj) is cls and len(LOG) == 1 and same(LOG[0][2][0], a),
                     "the template of a class builds that very class")
     del LOG[:]
-    obj = DerivedS1.s(a, b=a) >> pool
-    ctx.require(type(obj) is DerivedS1, "arguments that can bind to the subclass are accepted")
+    obj = derived.s(a) >> pool
+    ctx.require(type(obj) is derived, "arguments that can bind to the subclass are accepted")
 
 
 def stepwise_template(ctx):
